@@ -159,8 +159,10 @@ class Ctx:
             "wall_s": round(time.time() - self.t0, 2),
             "violations": len(self.violations),
         }
-        os.makedirs(os.path.join(ROOT, "evidence"), exist_ok=True)
-        with open(os.path.join(ROOT, "evidence", f"{self.prop}.json"), "w") as f:
+        # development mode never touches the evidence of the real tree
+        evdir = os.path.join(ROOT, ".build", "evidence" + TAG) if DEV else os.path.join(ROOT, "evidence")
+        os.makedirs(evdir, exist_ok=True)
+        with open(os.path.join(evdir, f"{self.prop}.json"), "w") as f:
             json.dump(ev, f, indent=1, ensure_ascii=True)
         ok = not self.violations
         print(f"{self.prop} {self.tier}: {'OK' if ok else 'VIOLATIONS=' + str(len(self.violations))} "
